@@ -3620,6 +3620,11 @@ func (r *JournalReader) Next() (err error) {
 		}
 	}
 
+	// A database without a page size has no pages so there is nothing to roll back.
+	if r.pageSize == 0 {
+		return io.EOF
+	}
+
 	// Ensure offset is sector-aligned.
 	r.offset = journalHeaderOffset(r.offset, int64(r.sectorSize))
 
@@ -3657,7 +3662,12 @@ func (r *JournalReader) Next() (err error) {
 
 	// Only read sector and page size from first journal header.
 	if r.offset == 0 {
-		r.sectorSize = binary.BigEndian.Uint32(hdr[20:])
+		// SQLite treats a header with an invalid sector size as the end of the journal.
+		sectorSize := binary.BigEndian.Uint32(hdr[20:])
+		if sectorSize < 32 || sectorSize > 65536 || sectorSize&(sectorSize-1) != 0 {
+			return io.EOF
+		}
+		r.sectorSize = sectorSize
 
 		// Use page size from journal reader, if set to 0.
 		pageSize := binary.BigEndian.Uint32(hdr[24:])
@@ -3718,8 +3728,8 @@ func (r *JournalReader) ReadFrame() (pgno uint32, data []byte, err error) {
 
 // journalHeaderOffset returns a sector-aligned offset.
 func journalHeaderOffset(offset, sectorSize int64) int64 {
-	if offset == 0 {
-		return 0
+	if offset == 0 || sectorSize <= 0 {
+		return offset
 	}
 	return ((offset-1)/sectorSize + 1) * sectorSize
 }
